@@ -101,7 +101,11 @@ def check(ctx: Ctx) -> None:
     want = {True: K * (T.Term.const(1) - B), False: K * (T.Term.const(1) - PER)}
     seen = set()
     for conds, t in paths:
-        none_branch = any(c.replace(' ', '') == 'packet_lengthisNone' for c in conds)
+        cs = [c.replace(' ', '') for c in conds]
+        none_branch = any(c in ('packet_lengthisNone', 'not(packet_lengthisnotNone)', 'notpacket_lengthisnotNone') for c in cs)
+        some_branch = any(c in ('packet_lengthisnotNone', 'not(packet_lengthisNone)', 'notpacket_lengthisNone') for c in cs)
+        if not none_branch and not some_branch:
+            ctx.error('C16.a: a path of the spectral efficiency is not decided by a test of packet_length against None (%s): cannot tell' % conds)
         seen.add(none_branch)
         _cmp(ctx, 'C16.a', 'Modulator.calcTheoreticalSpectralEfficiency:%s' % ('SE-no-length' if none_branch else 'SE'),
              fn, t, want[none_branch], 'spectral efficiency')
@@ -210,6 +214,11 @@ def _check_scale(ctx: Ctx, ser_terms: Dict[str, T.Term]) -> None:
     # returned table is symbols / sqrt(average_energy)
     rets = [n for n in walk_no_nested(cc.node) if isinstance(n, ast.Return)]
     norm_ok = len(rets) == 1 and norm(rets[0].value).replace('np.', 'math.') == 'symbols / math.sqrt(average_energy)'
+    if not norm_ok and len(rets) == 1 and isinstance(rets[0].value, ast.Name):
+        # in-place form: `symbols /= sqrt(average_energy); return symbols`
+        augs = [n for n in cc.node.body if isinstance(n, ast.AugAssign) and isinstance(n.target, ast.Name) and n.target.id == rets[0].value.id]
+        norm_ok = len(augs) == 1 and isinstance(augs[0].op, ast.Div) and \
+            norm(augs[0].value).replace('np.', 'math.') == 'math.sqrt(average_energy)' and rets[0].value.id == 'symbols'
     # half spacing of the grid from the complex(...) literal
     h2 = None
     for n in walk_no_nested(cc.node):
@@ -227,6 +236,12 @@ def _check_scale(ctx: Ctx, ser_terms: Dict[str, T.Term]) -> None:
         # vectorised grid: the levels are stored through `symbols.real = tile/repeat(<a + c * arange(L)>, L)`
         env = T.Env(M, cc, opaque=set())
         env.vars.update(loc)
+        # index grids: ii, jj = np.indices((L, L)) / np.meshgrid(...)
+        index_syms = set()
+        for n in walk_no_nested(cc.node):
+            if isinstance(n, ast.Assign) and isinstance(n.targets[0], ast.Tuple) and isinstance(n.value, ast.Call) \
+                    and norm(n.value.func) in ('np.indices', 'np.meshgrid', 'np.mgrid', 'np.ogrid'):
+                index_syms |= {x.id for x in n.targets[0].elts if isinstance(x, ast.Name)}
         coefs = []
         for n in walk_no_nested(cc.node):
             if isinstance(n, ast.Assign) and isinstance(n.targets[0], ast.Attribute) and n.targets[0].attr in ('real', 'imag'):
@@ -237,7 +252,7 @@ def _check_scale(ctx: Ctx, ser_terms: Dict[str, T.Term]) -> None:
                     t_ = T.from_ast(v, env)
                 except T.Unknown:
                     continue
-                c_ = T.coefficient_of(t_, lambda a: a[0] == 'call' and a[1].split('.')[-1] == 'arange')
+                c_ = T.coefficient_of(t_, lambda a: (a[0] == 'call' and a[1].split('.')[-1] == 'arange') or (a[0] == 'sym' and a[1] in index_syms))
                 if c_.is_const() and c_.const_value() != 0:
                     coefs.append(abs(c_.const_value()))
         if len(coefs) == 2 and coefs[0] == coefs[1]:
@@ -272,6 +287,15 @@ def _check_scale(ctx: Ctx, ser_terms: Dict[str, T.Term]) -> None:
     r_sin = T.coefficient_of(loc['imagPart'], lambda a: a[0] == 'call' and a[1].split('.')[-1] == 'sin' and T._t(a[2][0]) == ph)
     rets = [n for n in walk_no_nested(cp.node) if isinstance(n, ast.Return)]
     ret_ok = len(rets) == 1 and norm(rets[0].value) in ('realPart + 1j * imagPart', 'realPart + imagPart * 1j')
+    if not ret_ok and len(rets) == 1:
+        # any spelling of  realPart + 1j * imagPart  (e.g. built up in place in a local)
+        try:
+            env_ = T.Env(M, cp, opaque=set())
+            env_.vars.update(loc)
+            rt = T.from_ast(rets[0].value, env_)
+            ret_ok = rt == loc['realPart'] + T.Term.sym('1j') * loc['imagPart']
+        except (T.Unknown, KeyError):
+            ret_ok = False
     arg = _qfunc_arg(ser_terms['PSK.calcTheoreticalSER'])
     if arg is None or not ret_ok:
         ctx.error('C16.b: PSK anchors not recognised')
